@@ -112,11 +112,15 @@ package gohbase
 //@   modifies X.queued
 //@   ensures ghost("queued") == old(ghost("queued")) + 1
 
+// the call is bound (SetRegion) to the region that owns its key, and the connection returned is that region's (C01)
 //@ func gohbase.(*client).getRegionAndClientForRPC
-//@   trusted "frame abstraction: cache and region state summarised as ghost X.regionstate; a nil error comes with a non-nil client (see C09 for the body)"
-//@   requires rpc != nil
-//@   modifies X.regionstate, X.ctxdone, X.callregion
+//@   requires sleepAndIncreaseBackoffOverride == nil && establishRegionOverride == nil && c.logger != nil && c.adminRegionInfo != nil && c.metaRegionInfo != nil && rpc != nil
+//@   modifies X.ctxdone, X.regionstate, X.callregion, X.unavail, X.token, X.regclient
+//@   hides X.lookups, X.slept, X.nsleeps, X.attempts, X.closereq "the ghost counters of attempts and waits are per operation: those of a nested region lookup (its own meta scan and its own back-off) are accounted in lookupRegion's contract, not added to the counters of the call being routed"
+//@   panics never[C01]
 //@   ensures r1 == nil ==> r0 != nil
+//@   ensures[C01] r1 == nil ==> ghostat("callregion", rpc) != nil && r0 == ghostat("regclient", ghostat("callregion", rpc))
+//@   ensures[C01] r1 == nil && !special(c, rpc.Table()) ==> routes(asiface(ghostat("callregion", rpc), "hrpc.RegionInfo"), rpc.Table(), rpc.Key())
 
 // Ghost witnesses of the grouping computed by findClients: grppos[rc][p] is the position in batch of the p-th call of
 // the group of connection rc; grpof[k] is the connection of the call at position k.
@@ -129,7 +133,8 @@ package gohbase
 
 //@ func gohbase.(*client).findClients
 //@   requires len(res) >= len(batch) && forall(k, 0 <= k && k < len(batch), batch[k] != nil)
-//@   modifies contents(res), X.regionstate, X.ctxdone, X.callregion, X.grppos, X.grpof, X.grpidx
+//@   requires sleepAndIncreaseBackoffOverride == nil && establishRegionOverride == nil && c.logger != nil && c.adminRegionInfo != nil && c.metaRegionInfo != nil
+//@   modifies contents(res), X.regionstate, X.ctxdone, X.callregion, X.grppos, X.grpof, X.grpidx, X.unavail, X.token, X.regclient
 //@   panics never[C07]
 //@   ensures[C07] forall(k, 0 <= k && k < len(batch), res[k].Msg == old(res[k].Msg) && (res[k].Error == old(res[k].Error) || res[k].Error != nil))
 //@   ensures[C07] forall(j, len(batch) <= j && j < len(res), res[j].Msg == old(res[j].Msg) && res[j].Error == old(res[j].Error))
@@ -178,7 +183,7 @@ package gohbase
 // are paced (at most two immediate retries, then the schedule). NOT proved (tagged WIP, checked by nobody, assumed by
 // nobody): `allOK ==> every error is nil` - see /verif/DESIGN.md.
 //@ func gohbase.(*client).SendBatch
-//@   requires sleepAndIncreaseBackoffOverride == nil
+//@   requires sleepAndIncreaseBackoffOverride == nil && establishRegionOverride == nil && c.logger != nil && c.adminRegionInfo != nil && c.metaRegionInfo != nil
 //@   requires forall(k, 0 <= k && k < len(batch), batch[k] != nil)
 //@   requires marksBelow()
 //@   panics never[C07]
@@ -264,7 +269,8 @@ package gohbase
 //@   pure
 
 //@ func gohbase.(*client).SendRPC
-//@   requires sleepAndIncreaseBackoffOverride == nil && rpc != nil
+//@   requires sleepAndIncreaseBackoffOverride == nil && establishRegionOverride == nil && rpc != nil
+//@   requires c.logger != nil && c.adminRegionInfo != nil && c.metaRegionInfo != nil
 //@   at continue 1 ghost nretrylater == ghost("nretrylater") + 1
 //@   at continue 2 ghost nserver == ghost("nserver") + 1
 //@   at continue 3 ghost nsre == ghost("nsre") + 1
@@ -279,18 +285,27 @@ package gohbase
 
 // ---- lookups and re-establishment back off on the same schedule (C17); the establisher token (C09) ----
 //@ func gohbase.(*client).zkLookup
-//@   trusted "ZooKeeper lookup: counted as one lookup attempt (ghost)"
-//@   modifies X.lookups, X.ctxdone
-//@   ensures ghost("lookups") == old(ghost("lookups")) + 1
+//@   trusted "ZooKeeper lookup (asynchronous helper goroutine + select on the context)"
+//@   modifies X.ctxdone
+//@ func gohbase.(*client).Scan
+//@   trusted "constructor of a scanner object"
+//@   modifies nothing
+//@   ensures r0 != nil
+//@ func hrpc.Scanner.Next() (r, err)
+//@   modifies X.attempts, X.ctxdone, X.regionstate, X.callregion, X.closereq
+//@   ensures err == nil ==> r != nil && forall(k, 0 <= k && k < len(r.Cells), r.Cells[k] != nil)
+
+// metaLookup (C01): a successful lookup returns a freshly parsed region of exactly the requested table whose range does
+// not end at or before the key (a hole in hbase:meta or a same-prefixed table is reported as an error, not routed to)
 //@ func gohbase.(*client).metaLookup
-//@   trusted "hbase:meta lookup: counted as one lookup attempt; a successful lookup yields a freshly parsed region (body verified under C01 for its filter part)"
-//@   modifies X.lookups, X.ctxdone, X.regionstate
-//@   ensures ghost("lookups") == old(ghost("lookups")) + 1
-//@   ensures r2 == nil ==> r0 != nil && fresh(r0) && ghostat("unavail", r0) == 0 && r0 != c.adminRegionInfo && r0 != c.metaRegionInfo
+//@   requires len(table) <= 32764
+//@   modifies X.ctxdone, X.regionstate, X.attempts, X.callregion, X.closereq
+//@   panics never[C01]
+//@   ensures[C01] r2 == nil ==> routes(r0, table, key)
+//@   ensures[C09] r2 == nil ==> !was(allocated(r0)) && ghostat("unavail", r0) == 0 && r0 != c.adminRegionInfo && r0 != c.metaRegionInfo
 //@ func gohbase.(*client).metaLookupForTable
-//@   trusted "hbase:meta table scan: counted as one lookup attempt"
-//@   modifies X.lookups, X.ctxdone, X.regionstate
-//@   ensures ghost("lookups") == old(ghost("lookups")) + 1
+//@   trusted "hbase:meta table scan"
+//@   modifies X.ctxdone, X.regionstate
 //@ func gohbase.(*client).lookupRegion$cancel()
 //@   modifies X.ctxdone
 //@   ensures forall(k, old(ghostat("ctxdone", k)) == 1 ==> ghostat("ctxdone", k) == 1)
@@ -301,17 +316,36 @@ package gohbase
 //@   ensures ghostat("ctxdone", ctx) == old(ghostat("ctxdone", ctx))
 
 //@ func gohbase.(*client).lookupRegion
-//@   requires sleepAndIncreaseBackoffOverride == nil && c.logger != nil && c.adminRegionInfo != nil && c.metaRegionInfo != nil
-//@   modifies X.lookups, X.ctxdone, X.regionstate, X.slept, X.nsleeps
+//@   requires sleepAndIncreaseBackoffOverride == nil && c.logger != nil && c.adminRegionInfo != nil && c.metaRegionInfo != nil && len(table) <= 32764
+//@   modifies X.lookups, X.ctxdone, X.regionstate, X.slept, X.nsleeps, X.attempts, X.callregion, X.closereq
+//@   at call zkLookup#1 ghost lookups == ghost("lookups") + 1
+//@   at call zkLookup#2 ghost lookups == ghost("lookups") + 1
+//@   at call metaLookup#1 ghost lookups == ghost("lookups") + 1
 // every failed lookup is followed by a wait before the next one; the k-th wait lasts sched(k)
 //@   loop 1 invariant[C17] backoff == sched(ghost("nsleeps") - old(ghost("nsleeps"))) && ghost("nsleeps") >= old(ghost("nsleeps"))
 //@   loop 1 invariant[C17] ghost("lookups") - old(ghost("lookups")) == ghost("nsleeps") - old(ghost("nsleeps"))
 // the only errors: unknown table, client closed, or the context passed in is done (C09 relies on this)
 //@   ensures[C09,C17] r2 == nil || r2 == TableNotFound || r2 == ErrClientClosed || ghostat("ctxdone", ctx) == 1
 //@   ensures[C09] r2 == nil ==> r0 != nil && (r0 == c.adminRegionInfo || r0 == c.metaRegionInfo || (ghostat("unavail", r0) == 0 && !was(allocated(r0))))
+//@   ensures[C01] r2 == nil && !special(c, table) ==> routes(r0, table, key)
+
+// a region found through hbase:meta is the one handed back for routing (after being entered into the cache)
+//@ func gohbase.(*client).findRegion
+//@   requires sleepAndIncreaseBackoffOverride == nil && establishRegionOverride == nil && c.logger != nil && c.adminRegionInfo != nil && c.metaRegionInfo != nil && len(table) <= 32764
+//@   modifies X.lookups, X.ctxdone, X.regionstate, X.slept, X.nsleeps, X.attempts, X.callregion, X.closereq, X.unavail, X.token, X.regclient
+//@   panics never[C01]
+//@   ensures[C01] r0 != nil && !special(c, table) ==> routes(r0, table, key)
+
+//@ func gohbase.(*client).getRegionForRpc
+//@   modifies X.lookups, X.ctxdone, X.regionstate, X.slept, X.nsleeps, X.attempts, X.callregion, X.closereq, X.unavail, X.token, X.regclient
+//@   requires sleepAndIncreaseBackoffOverride == nil && establishRegionOverride == nil && c.logger != nil && c.adminRegionInfo != nil && c.metaRegionInfo != nil && rpc != nil
+//@   panics never[C01]
+//@   ensures[C01] (r1 == nil) == (r0 != nil)
+//@   ensures[C01] r1 == nil && !special(c, rpc.Table()) ==> routes(r0, rpc.Table(), rpc.Key())
 
 //@ func gohbase.(*client).lookupAllRegions
 //@   requires sleepAndIncreaseBackoffOverride == nil && c.logger != nil
+//@   at call metaLookupForTable#1 ghost lookups == ghost("lookups") + 1
 //@   loop 1 invariant[C17] backoff == sched(ghost("nsleeps") - old(ghost("nsleeps"))) && ghost("nsleeps") >= old(ghost("nsleeps"))
 //@   loop 1 invariant[C17] ghost("lookups") - old(ghost("lookups")) == ghost("nsleeps") - old(ghost("nsleeps"))
 
@@ -348,8 +382,9 @@ package gohbase
 //@   trusted "probe request: counted as an attempt; no effect on the establisher token"
 //@   modifies X.attempts, X.callregion, X.ctxdone
 //@ func gohbase.fullyQualifiedTable
-//@   trusted "pure helper"
-//@   modifies nothing
+//@   trusted "pure helper: namespace:table, or the bare table for the default namespace (a function of the immutable region identity); assumption: region descriptors carry legal table names (name plus ',,:' fits HBase's MAX_ROW_LENGTH)"
+//@   pure
+//@   ensures len(r0) <= 32764
 //@ func gohbase.(*client).establishRegion$newRegionClientFn(addr, ctype, queueSize, flushInterval, effectiveUser, readTimeout, codec, dialer, log) (rc)
 //@   modifies X.newclients
 //@   ensures rc != nil
@@ -365,7 +400,9 @@ package gohbase
 //@   at call put#2 assume-shared rccNonNil(c.clients) && rccUniq(c.clients) && c.clients.logger != nil
 //@   at call clientDown#1 assume-shared rccNonNil(c.clients)
 //@   at call clientDown#2 assume-shared rccNonNil(c.clients)
-//@   requires establishRegionOverride == nil && sleepAndIncreaseBackoffOverride == nil && reg != nil && ghostat("unavail", reg) == 1 && ghost("closedexit") == 0
+//@   requires establishRegionOverride == nil && sleepAndIncreaseBackoffOverride == nil && reg != nil && ghostat("unavail", reg) == 1
+// (closedexit is ghost state of this invocation: 0 when a goroutine starts with it)
+//@   requires[local] ghost("closedexit") == 0
 //@   requires c.logger != nil && c.adminRegionInfo != nil && c.metaRegionInfo != nil
 //@   panics never[C09]
 //@   at call sleepAndIncreaseBackoff#1 assert[C17] backoff == 0 || onSched(backoff)
@@ -522,3 +559,32 @@ package gohbase
 //@   loop 1 invariant[C14] forall(k, 0 <= k && k < len(s.results), s.results[k] != result)
 //@   loop 1 invariant[C14] old(s.closed) && old(len(s.results)) == 0 ==> s.closed && len(s.results) == 0 && result == nil
 //@   loop 1 invariant[C14] allocated(result)
+
+// ---- routing (C01): the search key, and what a cache hit guarantees ----
+// searchKey(r, table, key, kl): r == table ++ "," ++ key[:kl] ++ ",:"
+//@ pred gohbase.searchKeyIs(r, table, key, kl) = len(r) == len(table) + kl + 3 && forall(k, 0 <= k && k < len(table), r[k] == table[k]) && r[len(table)] == ',' && forall(k, 0 <= k && k < kl, r[len(table) + 1 + k] == key[k]) && r[len(table) + 1 + kl] == ',' && r[len(table) + 2 + kl] == ':'
+
+//@ func gohbase.createRegionSearchKey
+//@   requires len(table) <= 32764
+//@   modifies nothing
+//@   overflow checked
+//@   panics never[C01]
+// the key part is cut so that the whole search key stays within HBase's maximal row length (32767), and only then
+//@   ensures[C01] searchKeyIs(r0, table, key, ite(len(key) < 32767 - len(table) - 3, len(key), 32767 - len(table) - 3))
+
+// routes(r, table, key): r is a region of exactly this table whose range does not end at or before key
+//@ pred gohbase.routes(r, table, key) = r != nil && seqeq(fullyQualifiedTable(r), table) && (len(r.StopKey()) == 0 || lexlt(key, r.StopKey()))
+// special(c, table): requests of the admin client and requests to hbase:meta itself go to the fixed master / meta descriptors
+//@ pred gohbase.special(c, table) = c.clientType == "MasterService" || seqeq(table, metaTableName)
+
+//@ func gohbase.(*keyRegionCache).get
+//@   trusted "B-tree lookup (Seek to the search key, step back one entry): the entry returned is some cached region or nil; which one is the subject of C08's abstract tree contract (not yet under a discharged contract)"
+//@   modifies nothing
+
+// a cache hit for a regular table is a region of exactly that table (same-prefixed tables are rejected) whose range does not
+// end at or before the key; otherwise the lookup goes to hbase:meta
+//@ func gohbase.(*client).getRegionFromCache
+//@   requires len(table) <= 32764
+//@   modifies nothing
+//@   panics never[C01]
+//@   ensures[C01] r0 != nil && !special(c, table) ==> routes(r0, table, key)
